@@ -407,6 +407,18 @@ func c05Universe() []string {
 			}
 		}
 	}
+	// a token directly followed by each byte class and a further name byte (a scanner table that is adjusted "for this
+	// call" and keeps the change poisons the calls after it), and URL values starting with every letter
+	for _, atom := range []string{"@a", "@@a", "`a`", "'a'", "1", "a", "$a$", "1.", "0x1", "q'(a)'"} {
+		for _, sym := range gen.AlphaSQL {
+			add(atom + sym + "1")
+			add("1;select " + atom + sym)
+		}
+	}
+	for c := byte('a'); c <= 'z'; c++ {
+		add("<a href=\"" + string([]byte{c}) + "ocha:x\">")
+		add("<img src=" + string([]byte{c}) + "ivescript:x>")
+	}
 	for _, f := range gen.FragSQL {
 		add("1 " + f + " 1")
 	}
